@@ -90,12 +90,23 @@ def run_case(case, ctx, tier="quick"):
     N = (6 if len(cls.alphabet) <= 2 else 5) + (2 if tier == "thorough" else 0)
     log = []
 
+    zeros = bool(case.get("zeros"))
+
+    def with_zeros(c, m, t):
+        # a provider may report explicit zero entries (the library treats them
+        # like absent ones, see utils.equal_counters)
+        if zeros and m >= 0:
+            for params in c.possible_parameters(min(m, 3)):
+                key = tuple(params[k] for k in c.extra_parameters)
+                t.setdefault(key, 0)
+        return t
+
     def provider(i, c):
         def get(m):
             log.append((i, m))
             if m < 0:
-                return Counter()
-            return Counter(brute.terms(c, m))
+                return with_zeros(c, 0, Counter()) if zeros else Counter()
+            return with_zeros(c, m, Counter(brute.terms(c, m)))
 
         return get
 
@@ -105,7 +116,7 @@ def run_case(case, ctx, tier="quick"):
         log.append(("parent", m))
         if m < 0:
             return Counter()
-        return Counter(brute.terms(cls, m))
+        return with_zeros(cls, m, Counter(brute.terms(cls, m)))
 
     try:
         constructor = form.constructor
@@ -164,8 +175,8 @@ def subchecks():
         SubCheck(
             name="requests",
             run_case=run_case,
-            strategy=lambda tier: ruleforms.form_case(tier),
-            examples={"quick": 6000, "thorough": 120000},
+            strategy=lambda tier: ruleforms.form_case(tier, with_zeros=True),
+            examples={"quick": 8000, "thorough": 120000},
         ),
         SubCheck(
             name="forest-spec",
